@@ -372,8 +372,12 @@ class Simulator(EventProducer, SimulatorInterface, Generic[TIME]):
         if self._replication_state == ReplicationState.INITIALIZED:
             self.fire_timed(self._simulator_time,
                 ReplicationInterface.START_REPLICATION_EVENT, None)
+            if self.__worker is None:
+                return  # a listener has called cleanup(): nothing to start
             self._replication_state = ReplicationState.STARTED
         self.fire(Simulator.STARTING_EVENT, None)
+        if self.__worker is None:
+            return  # a listener has called cleanup(): nothing to start
         # wake up the run() method of the worker thread to start Simulator.run
         self.__worker.wakeup()
         # wait maximally one second
